@@ -60,7 +60,7 @@ class C18(Machine):
                   "with_namespace": rng.random() < 0.5, "ns_fill": rng.randrange(6), "pop_size": rng.choice([None, 1, 1, 0.5, 10, 1000]),
                   "nspecies": nsp, "genes": [rng.randint(1, 5) for _ in range(nsp)],
                   "species_tree": gen.ultrametric_spec(rng, ["S%d" % i for i in range(nsp)]),
-                  "edge_pop": rng.random() < 0.5, "junk": rng.choice([0, 0, 7, 101, 1000, 4096]),
+                  "edge_pop": rng.random() < 0.5, "root_len": rng.choice([None, None, 0.25, 2.0]), "junk": rng.choice([0, 0, 7, 101, 1000, 4096]),
                   "sd": rng.choice([0.0, 0.0, 0.1]), "period": rng.choice([None, 0.1, 1.0, 5.0])}
             steps.append(st)
         return {"config": {}, "initial": {}, "steps": steps}
@@ -98,6 +98,8 @@ class C18(Machine):
             labels = ["S%d" % i for i in range(st["nspecies"])]
             sns = dendropy.TaxonNamespace(labels)
             stree = gen.build_tree(dendropy, st["species_tree"], sns, is_rooted=True)
+            if st.get("root_len"):
+                stree.seed_node.edge.length = st["root_len"]     # as on every tree that comes out of a simulator or a "):0.25;" Newick string
             if st["edge_pop"]:
                 for k, nd in enumerate(rawtree.raw_nodes(stree)):
                     nd.edge.pop_size = [0.5, 1.0, 2.0, 10.0][k % 4]
